@@ -12,7 +12,7 @@ From OV.model Require Import M_C03.
 From OV.gen Require Import Tab_TriQuad Tab_FsGeom.
 From Coq Require Import Permutation.
 From OV.model Require Import M_C13_Edges.
-From OV.proofs Require Import L_C03sn L_C03cert L_C03tab L_C03lift L_C03int L_C03div L_C03_C13.
+From OV.proofs Require Import L_C03sn L_C03cert L_C03tab L_C03lift L_C03int L_C03div L_C03_C13 L_C03edge L_C03geo.
 Import ListNotations.
 Local Open Scope R_scope.
 
@@ -53,6 +53,12 @@ Theorem C03_nodes1d_cert_sound : forall p xs tn td, (0 < td)%Z -> nodes1d_ok 2 p
   (forall a x y, nth_error xs a = Some x -> nth_error xs (S a) = Some y -> s2r 2 x < s2r 2 y) /\
   (forall a x y, nth_error xs a = Some x -> nth_error (rev xs) a = Some y -> Rabs (s2r 2 x + s2r 2 y - 1) <= IZR tn / IZR td).
 Proof. exact nodes1d_ok_sound_b2. Qed.
+
+(* Lebesgue sums of the certified 1-D shape tables: sum_a |N_a(s_q)| <= ln/ld at every point of every 1-D rule (the
+   certificates run with ln/ld = 2); this is the hypothesis Lam of C03_edge_flux_impl_points *)
+Theorem C03_lebesgue1_cert_sound : forall qrecs ln ld, (0 < ld)%Z -> lebesgue1_ok 2 qrecs ln ld = true ->
+  forall s N dN, In (s, (N, dN)) qrecs -> rsum (map Rabs (map (s2r 2) N)) <= IZR ln / IZR ld.
+Proof. exact lebesgue1_ok_sound_b2. Qed.
 
 (* ---- layer 3: every affine element, every mesh *)
 (* the gradient components carried by PolyG are the partial derivatives *)
@@ -211,14 +217,138 @@ Theorem C03_edge_flux_quadrature_partial : forall k F1 f1x f1y l F2 f2x f2y A B 
     Rabs (discrete_flux F1 F2 A B xs ws - flux F1 F2 A B) <= C * eps.
 Proof. exact edge_flux_quadrature. Qed.
 
-(* NOT PROVED (divergence clause, remaining gap between the theorems above and the implementation's numbers):
-     - the implementation evaluates F at X_q = sum_a N_a(s_q) X_a; the certificates give |X_q - (A + s_q t)| <= eps |..|
-       (RefIds1 with k = 1), but the propagation of that perturbation through F (a Lipschitz bound for F) is not proved:
-       C03_edge_flux_quadrature_partial is stated at the exact edge points;
-   (The premise of C03_divergence_mesh is no longer assumed: C03_divergence_mesh_create_edges derives it from C13's
-   create_edges theorems; its two hypotheses -- no directed pair twice, no degenerate side -- are checked on every L2 mesh,
-   together with the decomposition itself on the implementation's create_edges output.)
-   The remaining gap is exercised on the implementation by L2 (boundary flux vs exact integral of div F on random meshes). *)
+(* ---- the divergence clause AT THE IMPLEMENTATION'S OWN POINTS (round 4; closes the former NOT PROVED item).
+   FunctionSpace.integrate_function_on_edge evaluates F at X_q = sum_a N_a(s_q) X_a (1-D shape tables applied to the
+   coordinates X_a of the edge nodes), multiplies by the unit normal and by jac * w_q of Mesh.compute_edge_vectors:
+     impl_edge_flux F1 F2 A B Xn Ns ws = sum_q (jac w_q) (F1(X_q) n_x + F2(X_q) n_y),  (n, jac) = edge_vectors A B at R.
+   plip P M = sum |c_ij| (d/dx + d/dy)(x^i y^j) at (M, M) is a Lipschitz constant (max-norm) of the polynomial P on [-M, M]^2;
+   emax A B is the max-norm radius of a box containing the edge;
+   lip_term P1 P2 A B eta = eta * (plip P1 (emax + eta) |t_y| + plip P2 (emax + eta) |t_x|). *)
+Theorem C03_polynomial_lipschitz : forall P X X' M d, inbox M X -> inbox M X' -> pclose d X X' ->
+  Rabs (peval P X - peval P X') <= plip P M * d.
+Proof. exact peval_lip. Qed.
+(* distance of the implementation's edge point from the exact one: node placement error delta (times the Lebesgue sum of
+   the shape values) plus the certified error of the 1-D reference identities (only k = 0, 1 are used) *)
+Theorem C03_edge_point_distance : forall p eps delta nodes s N dN A B Xn,
+  (1 <= p)%nat -> RefIds1 p eps nodes s N dN -> 0 <= delta ->
+  Forall2 (fun sg X => pclose delta X (seg A B sg)) nodes Xn ->
+  pclose (delta * rsum (map Rabs N) + eps * emax A B) (interp_pt N Xn) (seg A B s).
+Proof. exact interp_pt_close. Qed.
+(* the sum written with the unit normal and the edge Jacobian is the flux sum at the interpolated points (A <> B) *)
+Theorem C03_impl_edge_flux_form : forall F1 F2 A B Xn Ns ws, A <> B ->
+  impl_edge_flux F1 F2 A B Xn Ns ws = flux_at F1 F2 A B (map (fun N => interp_pt N Xn) Ns) ws.
+Proof. exact impl_edge_flux_eq. Qed.
+(* impl_edge_flux is the R-instance of the Num-generic model edge_flux_sum of model/M_C03.v, which is executed at binary64
+   against FunctionSpace.integrate_function_on_edge (L1 stream `edgeflux`, monomial integrands mono_fn a c = x^a y^c) *)
+Theorem C03_impl_edge_flux_is_model : forall F1 F2 A B Xn Ns ws,
+  @edge_flux_sum R NumR F1 F2 A B Xn Ns ws = impl_edge_flux F1 F2 A B Xn Ns ws.
+Proof. exact edge_flux_sum_R. Qed.
+Theorem C03_mono_fn_R : forall a c X, @mono_fn R NumR a c X = rmon X (a, c).
+Proof. exact mono_fn_R. Qed.
+(* general statement: edge nodes within delta of A + sigma_a t, Lebesgue sums bounded by Lam *)
+Theorem C03_edge_flux_impl_points : forall k F1 f1x f1y l F2 f2x f2y A B d1 p,
+  PolyG k F1 f1x f1y -> PolyG l F2 f2x f2y -> (k <= d1)%nat -> (l <= d1)%nat -> (1 <= p)%nat -> A <> B ->
+  exists C P1 P2, 0 <= C /\ pdeg_le k P1 /\ pdeg_le l P2 /\ (forall x, F1 x = peval P1 x) /\ (forall x, F2 x = peval P2 x) /\
+    forall eps_q eps_s delta Lam nodes Xn xs Ns ws,
+      Gauss1dExact d1 eps_q xs ws ->
+      Forall2 (fun s N => (exists dN, RefIds1 p eps_s nodes s N dN) /\ rsum (map Rabs N) <= Lam) xs Ns ->
+      Forall2 (fun sg X => pclose delta X (seg A B sg)) nodes Xn ->
+      0 <= eps_s -> 0 <= delta -> 0 <= Lam ->
+      Rabs (impl_edge_flux F1 F2 A B Xn Ns ws - flux F1 F2 A B)
+        <= C * eps_q + (1 + eps_q) * lip_term P1 P2 A B (delta * Lam + eps_s * emax A B).
+Proof. exact edge_flux_impl_points. Qed.
+(* edge nodes exactly at the affine images A + sigma_a t of the 1-D reference nodes *)
+Theorem C03_edge_flux_impl_points_exact_nodes : forall k F1 f1x f1y l F2 f2x f2y A B d1 p,
+  PolyG k F1 f1x f1y -> PolyG l F2 f2x f2y -> (k <= d1)%nat -> (l <= d1)%nat -> (1 <= p)%nat -> A <> B ->
+  exists C P1 P2, 0 <= C /\ pdeg_le k P1 /\ pdeg_le l P2 /\ (forall x, F1 x = peval P1 x) /\ (forall x, F2 x = peval P2 x) /\
+    forall eps_q eps_s nodes xs Ns ws,
+      Gauss1dExact d1 eps_q xs ws ->
+      Forall2 (fun s N => exists dN, RefIds1 p eps_s nodes s N dN) xs Ns ->
+      0 <= eps_s ->
+      Rabs (impl_edge_flux F1 F2 A B (map (seg A B) nodes) Ns ws - flux F1 F2 A B)
+        <= C * eps_q + (1 + eps_q) * lip_term P1 P2 A B (eps_s * emax A B).
+Proof. exact edge_flux_impl_points_exact_nodes. Qed.
+(* Lipschitz form (the full-strength version of C03_edge_flux_quadrature_partial): constants depending only on F and the
+   edge, for every rule error eps_q and every table error eps_s <= 1 *)
+Theorem C03_edge_flux_quadrature : forall k F1 f1x f1y l F2 f2x f2y A B d1 p,
+  PolyG k F1 f1x f1y -> PolyG l F2 f2x f2y -> (k <= d1)%nat -> (l <= d1)%nat -> (1 <= p)%nat -> A <> B ->
+  exists C L, 0 <= C /\ 0 <= L /\
+    forall eps_q eps_s nodes xs Ns ws,
+      Gauss1dExact d1 eps_q xs ws ->
+      Forall2 (fun s N => exists dN, RefIds1 p eps_s nodes s N dN) xs Ns ->
+      0 <= eps_s <= 1 ->
+      Rabs (impl_edge_flux F1 F2 A B (map (seg A B) nodes) Ns ws - flux F1 F2 A B) <= C * eps_q + L * (1 + eps_q) * eps_s.
+Proof. exact edge_flux_impl_lipschitz. Qed.
+(* mesh: the sum over the edges create_edges reports as boundary of the implementation's edge sums equals the sum over the
+   elements of the integrals of div F up to C eps_q + L (1 + eps_q) eps_s (boundary edges geometrically non-degenerate) *)
+Theorem C03_divergence_mesh_discrete : forall (X : nat -> R * R) k F1 f1x f1y l F2 f2x f2y conns d1 p,
+  NoDup (all_faces conns) -> nondegenerate conns ->
+  PolyG k F1 f1x f1y -> PolyG l F2 f2x f2y -> (k <= d1)%nat -> (l <= d1)%nat -> (1 <= p)%nat ->
+  (forall f, In f (boundary_faces conns) -> X (fst f) <> X (snd f)) ->
+  exists C L, 0 <= C /\ 0 <= L /\
+    forall eps_q eps_s nodes xs Ns ws,
+      Gauss1dExact d1 eps_q xs ws ->
+      Forall2 (fun s N => exists dN, RefIds1 p eps_s nodes s N dN) xs Ns ->
+      0 <= eps_s <= 1 ->
+      Rabs (rsum (map (impl_eflux F1 F2 nodes Ns ws) (map (xface X) (boundary_faces conns)))
+            - rsum (map (int_tri' (fun x => f1x x + f2y x)) (mesh_of X conns)))
+        <= C * eps_q + L * (1 + eps_q) * eps_s.
+Proof. exact divergence_mesh_discrete. Qed.
+Example C03_nonvacuous_edge :
+  Gauss1dExact 1 0 [1 / 2] [1] /\ Forall2 (fun s N => exists dN, RefIds1 1 0 [0; 1] s N dN) [1 / 2] [[1 / 2; 1 / 2]] /\
+  ((0, 0) : R * R) <> (1, 0).
+Proof. exact nonvacuous_edge. Qed.
+
+(* ---- the mapped shape gradients are J^{-T} times the reference gradients: they solve J^T g = dN, uniquely, for
+   J = [v0 - v2 | v1 - v2] (the Jacobian of the element map, C03_element_jacobian); their sum over the nodes is the mapped
+   sum of the reference gradients, hence exactly zero whenever the reference gradients sum to zero *)
+Theorem C03_mapped_gradient_solves : forall v0 v1 v2 dN, jacR v0 v1 v2 <> 0 -> JT_apply v0 v1 v2 (mgR v0 v1 v2 dN) = dN.
+Proof. exact mapped_gradient_solves. Qed.
+Theorem C03_mapped_gradient_unique : forall v0 v1 v2 dN g, jacR v0 v1 v2 <> 0 -> JT_apply v0 v1 v2 g = dN -> g = mgR v0 v1 v2 dN.
+Proof. exact mapped_gradient_unique. Qed.
+Theorem C03_element_jacobian : forall v0 v1 v2 xi h,
+  elmap v0 v1 v2 (fst xi + fst h, snd xi + snd h) =
+  (fst (elmap v0 v1 v2 xi) + ((fst v0 - fst v2) * fst h + (fst v1 - fst v2) * snd h),
+   snd (elmap v0 v1 v2 xi) + ((snd v0 - snd v2) * fst h + (snd v1 - snd v2) * snd h)).
+Proof. exact elmap_jacobian. Qed.
+Theorem C03_mapped_gradient_sum : forall v0 v1 v2 Gx Gy, length Gx = length Gy ->
+  let sg := phys_grads v0 v1 v2 Gx Gy in
+  (rsum (map fst sg), rsum (map snd sg)) = mgR v0 v1 v2 (rsum Gx, rsum Gy).
+Proof. exact mapped_gradient_sum. Qed.
+Theorem C03_mapped_gradient_sum_zero : forall v0 v1 v2 Gx Gy, length Gx = length Gy -> rsum Gx = 0 -> rsum Gy = 0 ->
+  let sg := phys_grads v0 v1 v2 Gx Gy in rsum (map fst sg) = 0 /\ rsum (map snd sg) = 0.
+Proof. exact mapped_gradient_sum_zero. Qed.
+
+(* ---- axisymmetric quadrature summed over a mesh: every element carries the same reference tables (any nodal basis with
+   the reference identities of order p >= 1 -- certified for orders 1..5 with and without bubble enrichment); Ms bounds |f| at
+   the quadrature points of each element *)
+Theorem C03_mesh_axisymmetric : forall p d k nodes pts Ns ws f fx fy (mesh : list tri) eps_s eps_q,
+  (1 <= p)%nat -> (k + 1 <= d)%nat -> PolyG k f fx fy ->
+  TriQuadExact d eps_q pts ws ->
+  Forall2 (fun q N => exists Gx Gy, RefIds p eps_s nodes q N Gx Gy) pts Ns -> 0 <= eps_s ->
+  exists Ps : list poly, length Ps = length mesh /\
+    Forall2 (fun t P => pdeg_le d P /\ forall xi, fst (tri_X t xi) * f (tri_X t xi) = peval P xi) mesh Ps /\
+    forall Ms : list R, Forall2 (fun t M => 0 <= M /\ forall q, In q pts -> Rabs (f (tri_X t q)) <= M) mesh Ms ->
+      Rabs (rsum (map (fun t => rdot (tri_vols_axi Ns nodes ws t) (map f (map (tri_X t) pts))) mesh)
+            - 2 * PI * rsum (map (fun tP => tri_jac (fst tP) * pint_ref (snd tP)) (combine mesh Ps)))
+        <= 2 * PI * rsum (map (fun tPM => let '(t, P, M) := tPM in
+              Rabs (tri_jac t) * (eps_q * pnorm1 P
+                 + eps_s * (let '(a, c, e) := t in Rabs (fst e) + Rabs (fst a - fst e) + Rabs (fst c - fst e)) * M * (1 / 2 + eps_q)))
+            (combine (combine mesh Ps) Ms)).
+Proof. exact lift_mesh_axisymmetric. Qed.
+
+(* NOT PROVED (what remains between the theorems and the implementation's numbers):
+     - binary64 rounding inside FunctionSpace / Mesh (the theorems are over exact reals with the certified table errors as
+       explicit hypotheses); tied by L1 on the geometric kernels and by L2 with stated head-room;
+     - the placement error delta of the higher-order edge nodes enters C03_edge_flux_impl_points as a hypothesis: it is owned
+       by C13 (mesh elevation, computed in binary64) and measured per edge in L2; the Lebesgue sums Lam are certified (<= 2,
+       C03_lebesgue1_cert_sound); for delta = 0 neither is needed (C03_edge_flux_impl_points_exact_nodes,
+       C03_edge_flux_quadrature, C03_divergence_mesh_discrete);
+     - the interpolated nodal field u_q = sum_a N_a(s_q) u_a passed to func on edges is not part of the divergence clause
+       (tested by L2: oint u y n_x ds).
+   (The premise of C03_divergence_mesh is not assumed: C03_divergence_mesh_create_edges derives it from C13's create_edges
+   theorems; its two hypotheses -- no directed pair twice, no degenerate side -- are checked on every L2 mesh, together with
+   the decomposition itself on the implementation's create_edges output.) *)
 
 (* non-vacuity: exact P1 data with the one-point rule satisfy the hypotheses; a concrete non-degenerate
    counter-clockwise triangle and a concrete degree-1 field exist *)
@@ -236,3 +366,5 @@ Print Assumptions C03_interpolation_and_gradient.
 Print Assumptions C03_mesh_area_ccw.
 Print Assumptions C03_axisymmetric.
 Print Assumptions C03_divergence_mesh_create_edges.
+Print Assumptions C03_divergence_mesh_discrete.
+Print Assumptions C03_mesh_axisymmetric.
